@@ -140,14 +140,14 @@ func StdFix() *Fix {
 
 // MRepo models one repository: what has been acknowledged and not deleted.
 type MRepo struct {
-	Cas   map[string]int64  // content present in the CAS (blob or manifest body): name -> virtual time of creation
-	Mans  map[string]int64  // manifests present in the index: name -> time of (first) push
-	ManMT map[string]string // media type each manifest was pushed with
-	Tags  map[string]string // tag -> manifest name
-	fix   *Fix
-	Limbo map[string]bool   // names whose presence the statement leaves open (may have been collected)
-	Orphan map[string]bool  // manifests that were children of an index that has since been deleted (shape information)
-	TagDel map[string]bool  // manifests that lost a tag through a tag delete while staying present (shape information)
+	Cas    map[string]int64  // content present in the CAS (blob or manifest body): name -> virtual time of creation
+	Mans   map[string]int64  // manifests present in the index: name -> time of (first) push
+	ManMT  map[string]string // media type each manifest was pushed with
+	Tags   map[string]string // tag -> manifest name
+	fix    *Fix
+	Limbo  map[string]bool // names whose presence the statement leaves open (may have been collected)
+	Orphan map[string]bool // manifests that were children of an index that has since been deleted (shape information)
+	TagDel map[string]bool // manifests that lost a tag through a tag delete while staying present (shape information)
 }
 
 type MReg struct {
@@ -652,4 +652,13 @@ func (f *Fix) Raw(name string, base *Item, data []byte) *Item {
 		Children: base.Children, Subject: base.Subject, SubjDig: base.SubjDig, ArtType: base.ArtType, Ann: base.Ann}
 	f.Items[name] = it
 	return it
+}
+
+// closeViolation: no statement demands that Close returns nil (it reports, for instance, a repository that was
+// only ever read and does not exist on disk); a panic inside Close is a different matter.
+func closeViolation(err error) []h.Violation {
+	if err != nil && strings.HasPrefix(err.Error(), "panic in Close") {
+		return []h.Violation{h.V("restart", "close-panics", "%v", err)}
+	}
+	return nil
 }
